@@ -58,4 +58,28 @@ def opOce (j : Json) : R Json := do
     | _ => throw "oce u"
   pure (okJ (putL1 (cols.map (oce u w))))
 
+/-- criteria relying on the default `cash` search:
+  ["eloss", a] mean exp(-a x);  ["iso", a, isOne] isoelastic loss;  ["pwl"] mean(-x + relu(-x)) -/
+def lossOf (j : Json) : R (List Float → Float) := do
+  match ← getArr j with
+  | [k, a] => do
+    if (← getStr k) == "eloss" then do let a : Float ← getS a; pure (entropicLoss a) else throw "loss"
+  | [k, a, o] => do
+    if (← getStr k) == "iso" then do
+      let a : Float ← getS a; let o ← getBool o; pure (isoelasticLoss o a)
+    else throw "loss"
+  | [k] => do
+    if (← getStr k) == "pwl" then
+      pure (fun xs => sumL (xs.map (fun x => -x + reluS (-x))) / xs.length.toFloat)
+    else throw "loss"
+  | _ => throw "loss"
+
+/-- {"op":"cash_default","loss":spec,"precision":bits,"max_iter":n,"cols":[[bits]]} -/
+def opCashDefault (j : Json) : R Json := do
+  let loss ← lossOf (← field j "loss")
+  let prec : Float ← getS (← field j "precision")
+  let mi ← getNat (← field j "max_iter")
+  let cols : List (List Float) ← getL2 (← field j "cols")
+  pure (Json.arr ((cols.map (cashDefault loss prec mi)).map (exceptJ putS)).toArray)
+
 end PfVerif.Driver
